@@ -815,14 +815,17 @@ def probe_affine(valfn, p, newvars, old_shape):
     return [F(v) for v in const], coeffs
 
 
-def op_affine(rng, cur, obs, spec):
+def op_affine(rng, cur, obs, spec, given=None):
     """Affine substitution of 1-2 real inputs.  The variables of the substituted expressions are fresh names,
     unsubstituted inputs of the Gaussian, variables of the other expressions, the substituted input itself
     (self-reference, y := 2*y+1) or another substituted input (cross-reference, x := y+1, y := 2*x)."""
     if obs.g is None:
         return None
     names = [k for k, _ in obs.reals]
-    targets = rng.sample(names, rng.choice([1, 1, 2, 2]) if len(names) > 1 else 1)
+    if given is not None:
+        targets = list(given)
+    else:
+        targets = rng.sample(names, rng.choice([1, 1, 2, 2]) if len(names) > 1 else 1)
     kept = [k for k in names if k not in targets]
     pool = list(obs.batch.items())
     used = {}
@@ -845,13 +848,19 @@ def op_affine(rng, cur, obs, spec):
         return k
     exprs = {}
     batch = dict(spec.batch)
-    for k in targets:
-        e = gen_affine_expr(rng, spec.reals[k], pick_var_for, pool)
-        if e is None or budget[0] < 0:
-            return None
-        exprs[k] = e
-    if rng.random() < 0.5:
-        exprs = dict(reversed(list(exprs.items())))
+    if given is not None:
+        # pre-built expression OBJECTS (reused across several Gaussians by the affine-reuse stream)
+        exprs = dict(given)
+        for e in exprs.values():
+            used.update(e[1])
+    else:
+        for k in targets:
+            e = gen_affine_expr(rng, spec.reals[k], pick_var_for, pool)
+            if e is None or budget[0] < 0:
+                return None
+            exprs[k] = e
+        if rng.random() < 0.5:
+            exprs = dict(reversed(list(exprs.items())))
     for e in exprs.values():
         for bk, bn in e[3]:
             batch[bk] = bn
@@ -1165,6 +1174,8 @@ def run_case(env, case_seed, tier, counts, stream="clean", sibling=False):
     """One chain.  Returns (n_steps_checked, nontrivial_key, sample) or raises CaseFail with witness."""
     if stream == "subs-order":
         return subs_order_case(env, case_seed, tier, counts)
+    if stream == "affine-reuse":
+        return affine_reuse_case(env, case_seed, tier, counts)
     rng = random.Random(case_seed)
     order = gen_signature(rng)
     if sibling:
@@ -1394,6 +1405,100 @@ def subs_order_case(env, case_seed, tier, counts):
     return n_ok, (case_seed, "subs-order"), dict(case_seed=case_seed, ops=["gaussian", "subs_real x all orders"])
 
 
+def result_image(res):
+    obs = Obs(res)
+    img = [tuple((k, str(d)) for k, d in res.inputs.items())]
+    if obs.g is not None:
+        img += [np.asarray(obs.g.white_vec).tobytes(), np.asarray(obs.g.prec_sqrt).tobytes()]
+    img += [np.asarray(t.data).tobytes() for t in obs.ts]
+    return img
+
+
+def affine_reuse_case(env, case_seed, tier, counts):
+    """The same affine expression OBJECTS (Tensor(A) @ u + b, scaled / sliced variables, sums of variables; batched
+    and unbatched coefficients) are substituted for the real input `x` of several different Gaussians in sequence —
+    batched over i:3, unbatched, batched over i:1, batched over another name — in random order and with repeats.
+    Every step is gated as usual (inputs of the result, dense triple, value at a point, Lean model), and repeating a
+    (expression, Gaussian) pair must reproduce its first result bit for bit (or its first decline)."""
+    rng = random.Random(case_seed)
+    shape = rng.choice([(), (), (2,), (3,)])
+    vnames = {}
+
+    def pick_var(sh):
+        cands = [k for k, s in vnames.items() if s == sh]
+        if cands and rng.random() < 0.3:
+            return rng.choice(cands)
+        k = [n for n in ["u", "v", "y", "q", "r", "s"] if n not in vnames][0]
+        vnames[k] = sh
+        return k
+    exprs = []
+    for _ in range(rng.choice([2, 3])):
+        pool_b = rng.choice([[], [], [], [("i", 3)], [("j", 2)]])
+        e = None
+        for _try in range(5):
+            e = gen_affine_expr(rng, shape, pick_var, pool_b * 4)
+            if e is not None:
+                break
+        if e is not None and len(vnames) <= 5:
+            exprs.append(e)
+    if not exprs:
+        return 0, None, None
+    layouts = [[("b", "i", 3)], [], [("b", "i", 1)], [("b", "j", 2)], [("b", "i", 3), ("b", "j", 2)]]
+    gaussians = []
+    for bl in layouts:
+        order = [("r", "x", shape)] + ([("r", "z", rng.choice(SHAPES))] if rng.random() < 0.5 else []) + list(bl)
+        rng.shuffle(order)
+        dim = sum(numel(o[2]) for o in order if o[0] == "r")
+        g, spec, exact, desc = make_gaussian(rng, order, rank=rng.randint(1, 2 * dim))
+        gaussians.append((g, spec, exact, desc, Obs(g)))
+    pairs = []
+    for ei, e in enumerate(exprs):
+        for gi, (g, spec, exact, desc, obs) in enumerate(gaussians):
+            if all(spec.batch.get(bk, bn) == bn for bk, bn in e[3]):     # batch sizes compatible
+                pairs.append((ei, gi))
+    rng.shuffle(pairs)
+    sequence = pairs + [rng.choice(pairs) for _ in range(min(4, len(pairs)))]
+    first = {}
+    nsteps = 0
+    for ei, gi in sequence:
+        g, spec, exact, desc, obs = gaussians[gi]
+        e = exprs[ei]
+        step = op_affine(rng, g, obs, spec, given={"x": e})
+        history = [dict(op="affine-reuse", expressions=[x[4] for x in exprs], sequence=sequence, failing=[ei, gi]),
+                   desc, step["desc"]]
+        try:
+            try:
+                res = step["run"]()
+            except DECLINE_ERRORS as ex:
+                img = ("declined", type(ex).__name__)
+                counts("affine-reuse:declined:" + type(ex).__name__)
+                if (ei, gi) in first and first[(ei, gi)] != img:
+                    raise CaseFail("C12.history-dependent-result", expected="the result of the first substitution",
+                                   got=f"{type(ex).__name__} when the same expression is substituted into the same "
+                                       f"Gaussian again after other Gaussians")
+                first.setdefault((ei, gi), img)
+                continue
+            rdim = sum(numel(sh) for sh in step["spec"].reals.values())
+            try:
+                check_step(env, rng, res, step, exact and not (rdim and step["rank"] > 2 * rdim), counts)
+            except Declined as d:
+                counts(f"affine-reuse:lazy:{d}")
+                continue
+            img = result_image(res)
+            if (ei, gi) in first and first[(ei, gi)] != img:
+                raise CaseFail("C12.history-dependent-result", expected="the arrays of the first substitution",
+                               got="different arrays / inputs when the same expression object is substituted into the "
+                                   "same Gaussian again after other Gaussians")
+            first.setdefault((ei, gi), img)
+        except CaseFail as cf:
+            cf.kw["witness"] = dict(case_seed=case_seed, stream="affine-reuse", tier=tier, history=history)
+            raise
+        counts("affine-reuse:step")
+        counts("affine-reuse:form:" + e[4])
+        nsteps += 1
+    return nsteps, (case_seed, "affine-reuse"), dict(case_seed=case_seed, ops=["affine-reuse"], steps=nsteps)
+
+
 def history_stream(ctx, env, n):
     """History-independence: a chain A, then a sibling chain B over the same ordered input names with the block
     sizes rotated, then A again — every step checked against its spec as usual, and the second run of A must
@@ -1488,6 +1593,15 @@ def correspond(ctx, use_driver=True, volume=None):
         if nsteps:
             ctx.case(sample=sample, nontrivial_key=key)
     history_stream(ctx, env, 40 if ctx.tier == "quick" else 800)
+    for _ in range(40 if ctx.tier == "quick" else 800):
+        seed = ctx.rng.getrandbits(48)
+        try:
+            nsteps, key, sample = run_case(env, seed, ctx.tier, ctx.count, stream="affine-reuse")
+        except CaseFail as cf:
+            report(ctx, cf, "affine-reuse")
+            continue
+        if nsteps:
+            ctx.case(sample=sample, nontrivial_key=key)
     for key in AVOID:
         finding_stream(ctx, env, key, 12 if ctx.tier == "quick" else 60)
     float_decline_stream(ctx)
